@@ -158,12 +158,12 @@ def native_violation(vs):
             return dict(reproduced=True, call='%s < %s' % (x, y), expected=True, observed=False)
     for m in TlsVersion:
         v = pv(m)
-        if v.is_draft or v.is_google_experimental:
+        if (m.value.code >> 8) in (0x7f, 0x7e):          # classified by the code itself, not by the code under test
             if not (pv(TlsVersion.TLS1_2) < v and v < pv(TlsVersion.TLS1_3)):
                 return dict(reproduced=True, call='TLS1_2 < %s < TLS1_3' % m.name, expected=True, observed=False)
-    drafts = [pv(m) for m in TlsVersion if pv(m).is_draft]
+    drafts = [pv(m) for m in TlsVersion if (m.value.code >> 8) == 0x7f]
     for x, y in itertools.product(drafts, repeat=2):
-        if (x < y) != (x.minor < y.minor):
+        if (x < y) != ((x.version.value.code & 0xff) < (y.version.value.code & 0xff)):
             return dict(reproduced=True, call='%s < %s' % (x, y), expected=x.minor < y.minor, observed=x < y)
     return dict(reproduced=False)
 
